@@ -91,6 +91,11 @@ type Op struct {
 	Node  int        `json:"node"`
 	Route string     `json:"route,omitempty"`
 	Set   []FieldVal `json:"set,omitempty"`
+	// KeyFault (update/delete): the write runs while the writer's key store is unavailable:
+	// read = every read under /db/enc fails; read-nth = only the Nth one; gone = the /db/enc
+	// entries are removed for the duration of the write (and restored afterwards)
+	KeyFault string `json:"key_fault,omitempty"`
+	Nth      int    `json:"nth,omitempty"`
 }
 
 // Case is one generated history.
@@ -415,6 +420,17 @@ func drawCase(t *rapid.T, avoidDocLate, avoidFieldLate bool) Case {
 		default:
 			op.Kind = "deliver"
 			op.Node = rapid.SampledFrom([]int{1, 2}).Draw(t, "to")
+		}
+		if op.Kind != "deliver" {
+			switch rapid.IntRange(0, 11).Draw(t, "key-fault") {
+			case 9:
+				op.KeyFault = "read"
+			case 10:
+				op.KeyFault = "read-nth"
+				op.Nth = rapid.IntRange(1, 4).Draw(t, "nth")
+			case 11:
+				op.KeyFault = "gone"
+			}
 		}
 		c.Ops = append(c.Ops, op)
 	}
